@@ -109,7 +109,7 @@ m = {
               "kind_free_text": "contract-based deductive verifier for Go written for this task: typed AST (go/ast + go/types, own source loader) -> symbolic execution with loop invariants, call-by-contract, interface models -> one SMT-LIB query per named obligation -> z3 5.1 / cvc5 1.0.3 / z3 4.8 raced"}],
  "checks": [],
  "not_applicable": [],
- "notes": "Every check rebuilds its verification conditions from /repo's working tree on each run. Failed obligations are reported as VIOLATION with the obligation name; a directed probe corpus (/verif/probes) is run against the real code to find a failing input, otherwise the line ends with no-failing-input-found. Quick tier: solvers raced, 20 s per obligation. Thorough tier: 60 s per obligation, every answer cross-checked by the other solvers, library lemmas re-proved by induction, obligation-count floor (/verif/expected_obligations.json), and the must-fail corpus: every recorded seeded change of the property (/verif/seeded/<id>/*.diff, 78 in all) is applied to a scratch copy of the current tree and must be reported by the quick check. Known findings: /verif/KNOWN_FINDINGS.json (one open entry: C06 pipe.Fold on cancel).",
+ "notes": "Every check rebuilds its verification conditions from /repo's working tree on each run. Failed obligations are reported as VIOLATION with the obligation name; a directed probe corpus (/verif/probes) is run against the real code to find a failing input, otherwise the line ends with no-failing-input-found. Quick tier: solvers raced, 20 s per obligation. Thorough tier: 60 s per obligation, every answer cross-checked by the other solvers, library lemmas re-proved by induction, obligation-count floor (/verif/expected_obligations.json), and the must-fail corpus: every recorded seeded change of the property (/verif/seeded/<id>/*.diff, 105 in all) is applied to a scratch copy of the current tree and must be reported by the quick check. Known findings: /verif/KNOWN_FINDINGS.json (one open entry: C06 pipe.Fold on cancel).",
 }
 for p in props:
     pid = p['id']
